@@ -222,7 +222,7 @@ func isHarnessMethod(fn *ssa.Function) bool {
 }
 
 func (m *Machine) raceAccess(fr *Frame, addr *Value, write bool) {
-	if !m.race.on || len(m.gs) < 2 || m.cur == nil || m.initDepth > 0 {
+	if !m.race.on || len(m.gs) < 2 || m.cur == nil || m.initDepth > 0 || (fr.info != nil && fr.info.raceSkip) {
 		return
 	}
 	g := m.cur
